@@ -77,7 +77,7 @@ the folded element must never exclude a value the set expression permits (union 
 The code compares end points only with min/max/==, so every order type of two operands is covered. \
 C04.serial: PerVisibleRangeConstraints += (serial constraints) is evaluated for all pairs of (lower, upper, ext) over the same alphabet: intersection, absent bound = identity, extensibility sticky. \
 C04.render: the (min?, max?, extensible) -> annotation table of format_range_annotations and fixed_size (fixed iff size, non-extensible, min == max) are evaluated exhaustively. \
-Not decided: operator precedence/associativity of the constraint parser, reference resolution, expressions with three or more operands, character-string folding.".into();
+C04.vis: parts that are not PER-visible (X.691 10.3.21; a PATTERN constraint stands for one): fold_constraint_set is evaluated with the invisible part on either side of each operator (union => not visible, intersection => the visible part, EXCEPT => base), and `impl PerVisible for ElementOrSetOperation` must report a set operation visible as soon as one side is. Not decided: operator precedence/associativity of the constraint parser, reference resolution, expressions with three or more operands, character-string folding.".into();
     ctx.assumptions = vec!["X.691 §10.3: PER-visible constraint of a union is the hull, EXCEPT is ignored".into(), "rasn's value(\"lo..=hi\") / size(..) annotations take inclusive ranges".into()];
     ctx.rule("abstract evaluation over all order types of two operands on a 6-point end-point alphabet; exhaustive option/boolean tables");
     let consts = const_resolver(m);
@@ -89,9 +89,17 @@ Not decided: operator precedence/associativity of the constraint parser, referen
         }
         ctx.func(k);
     }
-    let hook = |_: &Evaluator, name: &str, _a: &[Val]| -> Option<Result<Val, String>> {
+    // a PATTERN constraint stands for "not PER-visible" (X.691 10.3.21); everything else in the operand alphabet is visible
+    fn visible(v: &Val) -> bool {
+        match v {
+            Val::Ctor(n, _, _) if n == "PatternConstraint" => false,
+            Val::Ctor(n, p, _) if n == "Element" || n == "Some" => p.first().map(visible).unwrap_or(true),
+            _ => true,
+        }
+    }
+    let hook = |_: &Evaluator, name: &str, a: &[Val]| -> Option<Result<Val, String>> {
         if name == ".per_visible" {
-            return Some(Ok(Val::Bool(true)));
+            return Some(Ok(Val::Bool(a.first().map(visible).unwrap_or(true))));
         }
         None
     };
@@ -196,6 +204,79 @@ Not decided: operator precedence/associativity of the constraint parser, referen
                     }
                 }
             }
+        }
+    }
+    // ---- parts that are not PER-visible (X.691 10.3.21) ----
+    {
+        let inv = Val::Ctor("PatternConstraint".into(), vec![Val::Str("a*".into())], BTreeMap::new());
+        let vis = [elems[0].clone(), Elem { lo: Some(1), hi: Some(10), single: false, ext: false }];
+        for op in ["Union", "Intersection", "Except"] {
+            for v in &vis {
+                for (what, base, operant, want) in [
+                    ("visible-op-invisible", v.to_val(), inv.clone(), if op == "Union" { None } else { Some(v.clone()) }),
+                    ("invisible-op-visible", inv.clone(), v.to_val(), if op == "Intersection" { Some(v.clone()) } else { None }),
+                    ("invisible-op-invisible", inv.clone(), inv.clone(), None),
+                ] {
+                    n += 1;
+                    let key = format!("{}:{}:{}", op, what, v.show());
+                    ctx.oblige("C04.vis", &key, true);
+                    let mut setf = BTreeMap::new();
+                    setf.insert("base".to_string(), base);
+                    setf.insert("operator".to_string(), Val::ctor(op));
+                    setf.insert("operant".to_string(), Val::Ctor("Element".into(), vec![operant], BTreeMap::new()));
+                    let mut env = Env::new();
+                    env.insert("set".into(), Val::Ctor("SetOperation".into(), vec![], setf));
+                    env.insert("char_set".into(), Val::none());
+                    env.insert("range_constraint".into(), Val::Bool(true));
+                    let got = match ev.eval_fn_body(&fold.block, &mut env) {
+                        Ok(Val::Ctor(n, p, _)) if n == "Ok" => match p.first() {
+                            Some(Val::Ctor(s, _, _)) if s == "None" => Ok(None),
+                            Some(o) => bounds_of(o).map(Some),
+                            None => Err("Ok()".to_string()),
+                        },
+                        Ok(o) => Err(o.show()),
+                        Err(e) => Err(e),
+                    };
+                    match (got, want) {
+                        (Ok(None), None) => {}
+                        (Ok(Some((lo, hi, _))), Some(w)) if (lo, hi) == (w.lo, w.hi) => {}
+                        (Ok(g), w) => ctx.violate("C04.vis", &format!("{}:{}", op, what), &fold.file, fold.line,
+                            &format!("`{} {} {}` with PATTERN standing for a part that is not PER-visible folds to {:?}; X.691 10.3.21: {} => {}",
+                                if what.starts_with("visible") { v.show() } else { "PATTERN".into() }, op.to_uppercase(), if what.ends_with("-visible") { v.show() } else { "PATTERN".into() }, g.map(|(l, h, _)| format!("{:?}..{:?}", l, h)),
+                                match op { "Union" => "a union with a part that is not PER-visible is not PER-visible", "Intersection" => "the parts of an intersection that are not PER-visible are ignored", _ => "EXCEPT and what follows is ignored" },
+                                w.map(|w| w.show()).unwrap_or("not PER-visible".into()))),
+                        (Err(e), _) => ctx.fail_closed("C04.vis", &format!("[{}]: {}", key, e)),
+                    }
+                }
+            }
+        }
+        // the visibility test of a set operation itself: visible as soon as one side is
+        match m.fns.iter().find(|f| f.name == "per_visible" && f.self_ty.as_deref() == Some("ElementOrSetOperation") && f.trait_.as_deref() == Some("PerVisible")) {
+            Some(pv) => {
+                ctx.func(&pv.key);
+                let some_vis = vis[1].to_val();
+                for (bv, ov) in [(true, true), (true, false), (false, true), (false, false)] {
+                    let key = format!("set-operation-visible:base={},operant={}", bv, ov);
+                    ctx.oblige("C04.vis", &key, true);
+                    let mut setf = BTreeMap::new();
+                    setf.insert("base".to_string(), if bv { some_vis.clone() } else { inv.clone() });
+                    setf.insert("operator".to_string(), Val::ctor("Intersection"));
+                    setf.insert("operant".to_string(), Val::Ctor("Element".into(), vec![if ov { some_vis.clone() } else { inv.clone() }], BTreeMap::new()));
+                    let mut env = Env::new();
+                    env.insert("self".into(), Val::Ctor("SetOperation".into(), vec![Val::Ctor("SetOperation".into(), vec![], setf)], BTreeMap::new()));
+                    match ev.eval_fn_body(&pv.block, &mut env) {
+                        Ok(Val::Bool(b)) => {
+                            if b != (bv || ov) {
+                                ctx.violate("C04.vis", &key, &pv.file, pv.line, &format!("a set operation whose base is {} and whose operant is {} is reported as {}: a constraint with a PER-visible part on either side must reach the folding (it is filtered out before, and its bounds are lost)",
+                                    if bv { "PER-visible" } else { "not PER-visible" }, if ov { "PER-visible" } else { "not PER-visible" }, if b { "PER-visible" } else { "not PER-visible" }));
+                            }
+                        }
+                        Ok(o) => ctx.fail_closed("C04.vis", &format!("[{}]: {}", key, o.show())),
+                        Err(e) => ctx.fail_closed("C04.vis", &format!("[{}]: {}", key, e)),
+                    }
+                }
+            }
+            None => ctx.fail_closed("C04.vis", "anchor not found: impl PerVisible for ElementOrSetOperation"),
         }
     }
     ctx.oblige_n("C04.fold/operand-pairs", n);
